@@ -2545,6 +2545,23 @@ def all_folders_nth(t):
     return z3.ForAll([n], z3.Implies(z3.And(n >= 0, n < z3.Length(t)), is_folder(t[n])), patterns=[t[n]])
 
 
+GRAPH_V1 = "https://graph.microsoft.com/v1.0"        # Graph REST v1.0 root (spec side: from the Graph documentation)
+
+
+def free_consts(t):
+    """Names of the uninterpreted constants (symbolic inputs) a term mentions."""
+    seen, out, todo = set(), set(), [t]
+    while todo:
+        e = todo.pop()
+        if e.get_id() in seen:
+            continue
+        seen.add(e.get_id())
+        if z3.is_const(e) and e.decl().kind() == z3.Z3_OP_UNINTERPRETED:
+            out.add(e.decl().name())
+        todo.extend(e.children())
+    return out
+
+
 def ctx_of(site, drive):
     return CTX0(site.t) if isinstance(drive, VNoneT) else CTXD(site.t, drive.t)
 
@@ -2643,16 +2660,54 @@ def part_c(reg):
     CL = p_client(token=p_unk(), site=p_unk())
     CL_SITE = p_client(token=p_unk())
 
-    # -- _build_children_url: URL construction is opaque (TRUSTED: exercised by the replayer's fake server) -------
+    # -- _build_children_url (round 7: VERIFIED; it was an assumed abstraction) ---------------------------------------
+    # Verified on the body: the URL addresses the children collection of exactly the folder asked for, in the Graph REST
+    # format written here from the Graph documentation (not read from the module), optionally followed by a query string; it is
+    # a function of (site, drive, folder id) alone, total, no effect.  Call-site view (unchanged): the opaque name
+    # CU(ctx(site, drive), id) / CUROOT(ctx) of that function -- implied by the verified clauses (the explicit format is
+    # such a function), so the listing layer keeps reasoning over the abstract library indexed by URL.
     def curl(c):
         ctx = ctx_of(c.args["site_id"], c.args["drive_id"])
         it = c.args["item_id"]
         return VStr(CUROOT(ctx)) if isinstance(it, VNoneT) else VStr(CU(ctx, it.t))
+
+    def bcu_path(c):
+        site, it, drv = c.args["site_id"], c.args["item_id"], c.args["drive_id"]
+        parts = [sv(GRAPH_V1 + "/sites/"), site.t]
+        parts.append(sv("/drive") if isinstance(drv, VNoneT) else z3.Concat(sv("/drives/"), drv.t))
+        parts.append(sv("/root") if isinstance(it, VNoneT) else z3.Concat(sv("/items/"), it.t))
+        parts.append(sv("/children"))
+        return z3.Concat(*parts)
+
+    def bcu_addresses(c):
+        r = c.result
+        if not isinstance(r, VStr):
+            return z3.BoolVal(False)
+        path = bcu_path(c)
+        n = z3.Length(path)
+        return z3.And(z3.PrefixOf(path, r.t), z3.Or(z3.Length(r.t) == n, z3.SubString(r.t, n, 1) == sv("?")))
+
+    def bcu_functional(c):
+        r = c.result
+        if not isinstance(r, VStr):
+            return z3.BoolVal(False)
+        allowed = set()
+        for a in ("site_id", "item_id", "drive_id"):
+            v = c.args[a]
+            if isinstance(v, VStr):
+                allowed |= free_consts(v.t)
+        return z3.BoolVal(free_consts(r.t) <= allowed)
+
     out.append(FnContract(
         target=f"{CLIENT}::SharePointRestClient._build_children_url",
         params=[("self", CL), ("site_id", p_str()), ("item_id", p_opt(p_str())), ("drive_id", P_DRIVE)],
-        returns=curl, assumed=True,
-        note="ASSUMED abstraction: the children URL is a function of (site, drive, folder id); its Graph format is not proved",
+        ensures=[("addresses-the-children-collection-of-the-folder-asked-for-(graph-path,-optional-query)", body_only(bcu_addresses)),
+                 ("the-url-is-a-function-of-site,-drive-and-folder-id-alone", body_only(bcu_functional)),
+                 ("client-state-untouched", body_only(caches_unchanged))],
+        raises=[], total=True,
+        result_maker=lambda ex, st, ctx: curl(ctx),
+        note="children URL of a folder: Graph path of (site, drive, folder id) + optional query; callers see the opaque name CU / CUROOT "
+             "of this verified function",
     ))
 
     # -- _parse_file_item ---------------------------------------------------------------------------------------
